@@ -231,9 +231,11 @@ def corrupt_call(call, c, rnd):
     call = dict(call)
     k = call["kind"]
     labs = list(c.gates)
+    # a label nobody has: an ordinary one, or the empty string (which is falsy)
+    missing = rnd.choice(["missing_gate", ""])
     if k in ("add_gate", "emplace_gate") and call.get("operands"):
         ops = list(call["operands"])
-        ops[rnd.randrange(len(ops))] = "missing_gate"
+        ops[rnd.randrange(len(ops))] = missing
         call["operands"] = ops
         if rnd.random() < 0.3 and labs:
             call["label"] = rnd.choice(labs)
@@ -241,11 +243,11 @@ def corrupt_call(call, c, rnd):
         if rnd.random() < 0.5 and labs:
             call["new"] = rnd.choice(labs)
         else:
-            call["old"] = "missing_gate"
+            call["old"] = missing
     elif k in ("remove_gate", "mark_as_output"):
-        call["label"] = "missing_gate"
+        call["label"] = missing
     elif k in ("set_outputs", "order_outputs", "order_inputs", "set_inputs"):
-        call["labels"] = list(call["labels"]) + ["missing_gate"]
+        call["labels"] = list(call["labels"]) + [missing]
     elif k == "add_inputs" and labs:
         call["labels"] = list(call["labels"]) + [rnd.choice(labs)]
     elif k == "replace_inputs" and labs:
@@ -253,17 +255,17 @@ def corrupt_call(call, c, rnd):
     elif k == "connect" and (call["this"] or call["other"]):
         key = "this" if call["this"] else "other"
         t = list(call[key])
-        t[-1] = "missing_gate"
+        t[-1] = missing
         call[key] = t
     elif k == "replace_subcircuit" and call["outputs_mapping"]:
         om = dict(call["outputs_mapping"])
         kk = list(om)[-1]
-        om["missing_gate"] = om.pop(kk)
+        om[missing] = om.pop(kk)
         call["outputs_mapping"] = om
     elif k == "make_block":
-        call["gates"] = list(call["gates"]) + ["missing_gate"]
+        call["gates"] = list(call["gates"]) + [missing]
     elif k == "make_block_from_slice":
-        call["outputs"] = list(call["outputs"]) + ["missing_gate"]
+        call["outputs"] = list(call["outputs"]) + [missing]
     elif k in ("delete_block", "remove_block"):
         call["name"] = "missing_block"
     else:
@@ -300,3 +302,37 @@ def rebuild(c):
     for name, b in c._blocks.items():
         r.make_block(name, list(b.gates), list(b.outputs), list(b.inputs))
     return r
+
+
+def loop_closing_cases():
+    """(name, pre-state, replace_subcircuit call) where the replacement closes a loop through a gate downstream of
+    the replaced region.  The call has to raise a documented error; a normal return leaves a cyclic circuit.  The
+    loops are reachable from the outputs but, on purpose, not always from an INPUT gate: the leaves they hang off
+    are inputs that lose their last user, constants, or inputs fixed earlier by replace_inputs."""
+    out = []
+    for depth in (0, 1, 3):
+        for second in ("NOT", "AND2"):
+            gates = [("g1", G.NOT, ("i",)), ("g2", G.NOT, ("g1",)) if second == "NOT" else ("g2", G.AND, ("g1", "g1"))]
+            prev = "g2"
+            for d in range(depth):
+                gates.append((f"t{d}", G.NOT, (prev,)))
+                prev = f"t{d}"
+            gates += [("side", G.AND, ("j", "k")), ("top", G.OR, (prev, "side"))]
+            c = circgen.build(["i", "j", "k"], gates, ["top"])
+            for sub_gate, tag in ((("so", "NOT", ["s2"]), "ignores-its-other-input"), (("so", "AND", ["s1", "s2"]), "reads-both")):
+                out.append((f"loop[{depth},{second},{tag}]", c,
+                            dict(kind="replace_subcircuit", sub_spec=(["s1", "s2"], [sub_gate], ["so"]),
+                                 inputs_mapping={"i": "s1", "g2": "s2"}, outputs_mapping={"g1": "so"})))
+    # the slice is not convex: its input m depends on its output s1; S1 = (NOT(B) ^ M) ^ M reads M structurally
+    for fixed in (None, True, False, "constant-gate"):
+        gates = [("s1", G.NOT, ("b",)), ("m", G.NOT, ("s1",)), ("s2", G.AND, ("m", "b")), ("o", G.AND, ("a", "s2"))]
+        if fixed == "constant-gate":
+            c = circgen.build(["a"], [("b", G.ALWAYS_TRUE, ())] + gates, ["o"])
+        else:
+            c = circgen.build(["a", "b"], gates, ["o"])
+            if fixed is not None:
+                c.replace_inputs(["b"] if fixed else [], [] if fixed else ["b"])
+        sub = (["B", "M"], [("N", "NOT", ["B"]), ("X1", "XOR", ["N", "M"]), ("S1", "XOR", ["X1", "M"]), ("S2", "AND", ["M", "B"])], ["S1", "S2"])
+        out.append((f"loop[non-convex,b={fixed}]", c,
+                    dict(kind="replace_subcircuit", sub_spec=sub, inputs_mapping={"b": "B", "m": "M"}, outputs_mapping={"s1": "S1", "s2": "S2"})))
+    return out
